@@ -111,11 +111,26 @@ def _lar_log(S_, kind):
 c.exit_check(_lar_log)
 
 CS = "config/config_service.py"
-c = contract(CS, "ConfigService.tracepoint_logger", [], coarse=True)
+# the logger is looked up among the plugins that are loaded *now*, every time it is asked for: nothing is written (no
+# memo that a later change of the plugin list could leave stale), nothing escapes
+c = contract(CS, "ConfigService.tracepoint_logger", ["C16", "C20"])
 c.param("self", OBJ("ConfigService"))
 c.result = OPT(HOSTOBJ)
 c.logged = "tracepoint_logger"
 c.modifies = lambda S_: []
+
+
+def _tl_body(L):
+    plugin = L.seq.element(L.index)
+    ys = L.iter_yields()
+    inst = IsSub(L.now().typeof(plugin), z3.IntVal(L.cid("TracepointLogger")))
+    if not ys:
+        return [("yields-the-plugin-iff-it-is-a-tracepoint-logger", Not(inst))]
+    return [("yields-the-plugin-iff-it-is-a-tracepoint-logger", And(z3.BoolVal(len(ys) == 1), ys[0] == plugin, inst))]
+
+
+c.loop((CS + ":ConfigService.__plugin_generator", "iter:self._plugins"), body_ensures=_tl_body, body_no_raise=True,
+       modifies_kind="none")
 
 from .c10_conditions import inv_action_context
 
